@@ -11,7 +11,9 @@ import (
 // has K typed twice. Every key arrives in a read of its own (interactive typing). The two
 // sessions must end the same way: same returned line, or same buffer, cursor and keymaps at
 // the input wait that follows the last key.
-// params: style (emacs|vi), k, n (the first n characters of "ab c.d" are typed first)
+// params: style (emacs|vi), k, n (the first n characters of "ab c.d" are typed first),
+// calls (2: Enter accepts the line after the recording / after K, and the macro call / the
+// second K happen in a second Readline call on the same shell)
 func ZZ_C18_Session() {
 	if !zzverif.Symbolic() || zzShell2 == nil {
 		ZZSetup_TwoShellsWrapped()
@@ -62,20 +64,44 @@ func ZZ_C18_Session() {
 	for _, c := range K {
 		a = append(a, []byte{c})
 	}
-	if style == "vi" {
+	// calls=2: the line is accepted between the recording and the call of the macro, which
+	// then runs in the next Readline call (a recorded macro outlives the line)
+	twoCalls := zzverif.Param("calls") == "2"
+	var a2, b2 [][]byte
+	switch {
+	case twoCalls && style == "vi":
+		a = append(a, []byte("q"), []byte("\r"))
+		a2 = [][]byte{[]byte("\x1b"), []byte("@"), []byte("a")}
+		b2 = [][]byte{[]byte("\x1b")}
+	case twoCalls:
+		a = append(a, []byte("\x18)"), []byte("\r"))
+		a2 = [][]byte{[]byte("\x18e")}
+	case style == "vi":
 		a = append(a, []byte("q"), []byte("@"), []byte("a"))
-	} else {
+	default:
 		a = append(a, []byte("\x18)"), []byte("\x18e"))
 	}
 	for i := 0; i < 2; i++ {
 		for _, c := range K {
-			b = append(b, []byte{c})
+			if twoCalls && i == 1 {
+				b2 = append(b2, []byte{c})
+			} else {
+				b = append(b, []byte{c})
+			}
+		}
+		if twoCalls && i == 0 {
+			b = append(b, []byte("\r"))
 		}
 	}
 	replayed := zzRunChunks(zzShell, mode, nil, a, nil, nil)
+	if twoCalls {
+		zzverif.Assume(replayed.returned)
+		replayed = zzRunChunks(zzShell, keymap.Emacs, nil, a2, nil, nil)
+	}
 	// K must be a script of complete commands: when it has been typed once, no command is
 	// waiting for an argument key, no operator for its motion, no prefix for its next key
 	zzInCmd = 0
+	kDone := false
 	zzWaitProbe = func(rl *Shell, wait int) bool {
 		if i := wait - pre; i >= 0 && i+1 < k && K[i] == 0x1b {
 			// a lone ESC cancels an active local keymap (search, menu, pending operator);
@@ -83,6 +109,7 @@ func ZZ_C18_Session() {
 			zzverif.Assume(rl.Keymap.Local() == "")
 		}
 		if wait == pre+k {
+			kDone = true
 			_, noKeys := core.PeekKey(rl.Keys)
 			zzverif.Assume(zzInCmd == 0 && noKeys && !rl.Keymap.IsPending())
 			// ... and the keys that end the recording and call the macro are still commands:
@@ -95,6 +122,12 @@ func ZZ_C18_Session() {
 	}
 	typed := zzRunChunks(zzShell2, mode, nil, b, nil, nil)
 	zzWaitProbe = nil
+	if twoCalls {
+		// K itself must not end the Readline call (Enter, Ctrl-C, ... are not key scripts that
+		// can be typed twice in one line)
+		zzverif.Assume(kDone && typed.returned)
+		typed = zzRunChunks(zzShell2, keymap.Emacs, nil, b2, nil, nil)
+	}
 	zzverif.Reach("both-ran")
 	zzverif.Note("keys", string(K))
 	zzverif.Note("replayed", replayed.line+"|"+replayed.buf)
